@@ -368,8 +368,70 @@ pub fn c15(tier: Tier) -> i32 {
     let mut report = Report::new("C15", tier, "model_checking");
     report.assume("LMDB/heed, roaring, rayon");
     crate::props::run_hist_runs(&mut report, "C15", &c15_runs(tier));
-    report.cov("oracle", "after every successful build (every transition, not only new states): items > capacity => n_trees() = requested, or >= 1 when automatic; 0 < items <= capacity => exactly 1; empty => 0; nns(1) with the default budget is non-empty on a non-empty index; if every build of the history used the same capacity no decoded bucket exceeds it");
+    c15_large_dimensions(&mut report, tier);
+    report.cov("oracle", "after every successful build (every transition, not only new states): items > capacity => n_trees() = requested, or >= 1 when automatic; 0 < items <= capacity => exactly 1; empty => 0; nns(1) with the default budget is non-empty on a non-empty index; if every build of the history used the same capacity no decoded bucket exceeds it; the default capacity is the dimension also for dimensions around and above 1024 (item counts dimension-1, dimension, dimension+1)");
     report.finish()
+}
+
+/// "By default the dimension", for all dimensions >= 1: the capacity boundary at dimensions around
+/// and above a page worth of ids (1024), which the small universes cannot reach. Items are sparse
+/// vectors (one non-zero coordinate each), counts dimension-1, dimension and dimension+1.
+fn c15_large_dimensions(report: &mut Report, tier: Tier) {
+    use crate::common::{arroy_db, catch, Scratch, Violation};
+    let dims: Vec<usize> = if tier == Tier::Quick { vec![1023, 1100] } else { vec![257, 1023, 1024, 1025, 1100, 2050] };
+    let mut builds = 0u64;
+    crate::explore::in_single_thread_pool(|| {
+        for d in &dims {
+            for metric in [Metric::Euclidean, Metric::BqCosine] {
+                let s = Scratch::with_map_size("c15d", 1 << 30);
+                let r = catch(|| -> Result<u64, (String, String)> {
+                    crate::with_metric!(metric, D => {
+                        let mut n_builds = 0u64;
+                        let mut wtxn = s.env.write_txn().unwrap();
+                        let w = arroy::Writer::<D>::new(arroy_db::<D>(s.db), 0, *d);
+                        let mut v = vec![0.0f32; *d];
+                        let mut stored = 0usize;
+                        for target in [*d - 1, *d, *d + 1] {
+                            while stored < target {
+                                v[stored % *d] = if stored % 2 == 0 { 1.0 + (stored % 7) as f32 } else { -1.0 - (stored % 5) as f32 };
+                                w.add_item(&mut wtxn, stored as u32, &v).map_err(|e| ("O/large-dim-add".to_string(), e.to_string()))?;
+                                v[stored % *d] = 0.0;
+                                stored += 1;
+                            }
+                            let mut rng = <rand::rngs::StdRng as rand::SeedableRng>::seed_from_u64(crate::common::verif_seed());
+                            w.builder(&mut rng).n_trees(3).build(&mut wtxn).map_err(|e| ("O/large-dim-build".to_string(), e.to_string()))?;
+                            n_builds += 1;
+                            let reader = arroy::Reader::<D>::open(&wtxn, 0, arroy_db::<D>(s.db)).map_err(|e| ("O/open-failed".to_string(), e.to_string()))?;
+                            let want = if stored <= *d { 1 } else { 3 };
+                            if reader.n_trees() != want {
+                                return Err(("O/tree-count".into(), format!("dimension {d} (capacity by default = the dimension), {stored} items, 3 trees requested: n_trees() = {}, expected {want}", reader.n_trees())));
+                            }
+                            let res = reader.nns(1).by_item(&wtxn, 0).map_err(|e| ("O/search-failed".to_string(), e.to_string()))?;
+                            if res.map_or(true, |r| r.is_empty()) {
+                                return Err(("O/empty-search".into(), format!("dimension {d}, {stored} items: nns(1) returned nothing")));
+                            }
+                        }
+                        Ok(n_builds)
+                    })
+                });
+                match r {
+                    Ok(Ok(n)) => builds += n,
+                    Ok(Err((c, m))) => {
+                        report.add_violation(Violation::new(c, format!("{}: {m}", metric.short())));
+                        return;
+                    }
+                    Err(p) => {
+                        report.add_violation(Violation::new(format!("O/large-dim-panicked:{}", p.site()), format!("{} dimension {d}: {} {}", metric.short(), p.location, p.message)));
+                        return;
+                    }
+                }
+            }
+        }
+    });
+    report.cov_add("states", builds);
+    report.cov_add("transitions", builds);
+    report.cov_add("traces_validated_against_impl", builds);
+    report.cov("large_dimension_builds", builds);
 }
 
 // ------------------------------------------------------------------------------------------
